@@ -673,6 +673,9 @@ func c08Exec(raw json.RawMessage) Result {
 		}
 	}
 	impl := map[string]any{"line": hx(out.base.Line)}
+	if os.Getenv("ZVH_ALONE") != "" {
+		impl["timeout"] = false // re-run alone after a watchdog timeout (conc_watchdog.go): finished in time
+	}
 	noModel := op.Obs.T != "enc" || out.base.Panic != ""
 	nf := len(op.Hist)
 	shape := fmt.Sprintf("%s/%s/hist%d", op.Mode, kind, bucket(nf))
